@@ -6,7 +6,12 @@ OBLIGATIONS = []
 for u in UNITS:
     OBLIGATIONS.append(ob(f'C14.ladder.table.{u}', FS + f'c14_table_{u}', f'the documented unit `{u}` has a rung in parse_filesize, is reached first (not shadowed by an earlier rung) and strips exactly len("{u}") characters', units=['filesize']))
     OBLIGATIONS.append(ob(f'C14.ladder.mult.{u}', FS + f'c14_mult_{u}', f'for all integers n < 65536: the rung reached by `<n>{u}` returns n x the documented multiplier', units=['filesize'], complete=False, bound='n < 2^16 (u32 takes ~140 s per rung in CBMC; f64 multiplication is bit-blasted)'))
-CANARIES = [dict(harness=FS + 'canary_filesize_must_fail', units=['filesize'])]
+UM = 'util::verif_kani::'
+for h, d in [('k', 'k / kib / kb in both cases'), ('m', 'm / mib / mb'), ('g', 'g / gib / gb'), ('t', 't / tib / tb'), ('b', 'b and bare numbers'),
+             ('frac', 'fractional numbers incl. a fraction with a leading zero (1.0625K = 1088)'), ('space', 'a blank between number and unit'), ('bad', 'non-literals are rejected')]:
+    OBLIGATIONS.append(ob(f'C14.whole.{h}', UM + f'c14_whole_{h}', f'the REAL parse_filesize (whole function) on concrete witness literals: {d}', engine='K', units=['utilmod'], complete=False, bound='concrete witness literals'))
+CANARIES = [dict(harness=FS + 'canary_filesize_must_fail', units=['filesize']), dict(harness=UM + 'canary_utilmod_must_fail', units=['utilmod'])]
 ASSUMPTIONS = ['std: to_ascii_lowercase, replace(" ", ""), ends_with, slicing and str::parse::<f64>/<u64> behave as documented (T2)',
                'letter case: the ladder runs on the lower-cased literal (prologue checked by shape)']
 NOT_COVERED = ['fractional literals (f64 parse)', 'Variant::to_int / to_float coercion that calls parse_filesize', 'format_filesize (regex + humansize)', 'rendering monotonicity and round trip']
+HARNESS_TIMEOUT = 400
